@@ -1026,10 +1026,22 @@ def decisions_on(fu, seeds):
 		if t[1] != 'switch':
 			continue
 		op = t[2]
-		if op[0] not in ('c', 'm') or len(op[1]) != 1:
+		if op[0] not in ('c', 'm'):
+			continue
+		vals, other = _switch_targets(t)
+		if len(op[1]) != 1:
+			# switch directly on a projected place, e.g. `match r { Ok(true) => .. }` tests (r as Ok).0
+			stt = src_taint(op[1])
+			if stt is not None and stt[0] == 'bool':
+				f_t = vals.get(0)
+				if f_t is not None:
+					t_t = vals.get(1, other)
+					te, fe = [(bi, t_t)], [(bi, f_t)]
+					if stt[1]:
+						te, fe = fe, te
+					out.append(Decision(bi, te, fe, 'bool'))
 			continue
 		l = op[1][0]
-		vals, other = _switch_targets(t)
 		if l in taint and taint[l][0] == 'bool':
 			neg = taint[l][1]
 			# value 0 = false
@@ -1437,7 +1449,11 @@ def enum_variants(facts, adt):
 			out.append(rec[0])
 	return out
 
-def P4_fail_blocks(facts, rule, fu, acts, decisions, want_true=True, what='', key=None, min_decisions=1):
+def loop_heads(fu):
+	"""blocks that fetch the next loop item (`Iterator::next`): cutting there confines a search to one iteration"""
+	return set(fu.call_blocks(lambda p: p.endswith('Iterator::next') or p.endswith('::next')))
+
+def P4_fail_blocks(facts, rule, fu, acts, decisions, want_true=True, what='', key=None, min_decisions=1, stop_blocks=()):
 	"""from the failing edge of every decision no act is reachable (unless a pass edge of
 	one of the decisions is taken again, e.g. on the next loop iteration)."""
 	key = key or ('%s@%s' % (what, fu.name))
@@ -1457,7 +1473,7 @@ def P4_fail_blocks(facts, rule, fu, acts, decisions, want_true=True, what='', ke
 			out.append(Result(rule, False, 'guard:' + key, '%s: branch on %s at line %d has no failing edge' % (fu.name, what, fu.line_of(d.b)), len(acts), where=facts.where(fu.name, fu.line_of(d.b))))
 			continue
 		starts = [e[1] for e in fe]
-		p = fu.path(starts, acts, removed_edges=pass_edges)
+		p = fu.path(starts, acts, removed_edges=pass_edges, removed_blocks=stop_blocks)
 		if p is not None:
 			out.append(Result(rule, False, 'guard:' + key, '%s: after %s fails (line %d) the act is still reachable (lines %s)' % (fu.name, what, fu.line_of(d.b), fu.path_lines(p)[:20]),
 				len(acts), where=facts.where(fu.name, fu.line_of(p[-1])), detail={'path_blocks': p}))
@@ -1814,4 +1830,24 @@ def table_lookup(rows, assignment):
 						ok = False
 		if ok:
 			out.add(expr_str(ret) if ret is not None else 'None')
+	return out
+
+def switches_on_var(fu, name):
+	"""switch blocks whose operand is (a copy of) the user variable `name`:
+	returns [(block, false_target, true_target)] for boolean switches"""
+	ex = Expr(fu)
+	targets = []
+	want = []
+	for l, nm in fu.vars.items():
+		if nm == name:
+			want.append(ex.of_local(l))
+			want.append(('local', l, nm))
+	out = []
+	for bi, b in enumerate(fu.blocks):
+		t = b['t']
+		if t[1] == 'switch' and t[2][0] in ('c', 'm'):
+			e = ex.of_operand(t[2])
+			if e in want or (e[0] == 'local' and e[2] == name):
+				f_t = [tb for v, tb in t[3] if v == 0]
+				out.append((bi, f_t[0] if f_t else None, t[4]))
 	return out
